@@ -33,9 +33,15 @@ Obs ==
     /\ UNCHANGED ninj
 
 Inject == /\ IsEvent("Inject") /\ ninj' = ninj + 1 /\ UNCHANGED <<obs0, ncmp, differ, bad>>
-Skip == /\ IsOneOf({"End", "Ret"}) /\ UNCHANGED <<obs0, ninj, ncmp, differ, bad>>
+(* the execution ended because a call into the library panicked or hung (driver line, ep = "twin"): if that happens
+   to the second execution in a round the first one completed, the extra acknowledgement frames had an effect *)
+Died == /\ IsEvent("Ret") /\ Cur.ep = "twin"
+        /\ bad' = bad \cup (IF Cur.twin = 1 /\ ~differ /\ Cur.k < Len(obs0) THEN Flag("C15", "sender-died-after-forged-or-replayed-ack") ELSE {})
+        /\ differ' = (differ \/ Cur.twin = 1)
+        /\ UNCHANGED <<obs0, ninj, ncmp>>
+Skip == /\ (IsEvent("End") \/ (IsEvent("Ret") /\ Cur.ep # "twin")) /\ UNCHANGED <<obs0, ninj, ncmp, differ, bad>>
 
-Next == Reset \/ Obs \/ Inject \/ Skip
+Next == Reset \/ Obs \/ Inject \/ Died \/ Skip
 Spec == Init /\ [][Next]_vars
 AtEnd == l = NRec + 1
 Brief == IF AtEnd THEN [l |-> l, bad |-> bad, ninj |-> ninj, ncmp |-> ncmp] ELSE [l |-> l]
